@@ -411,16 +411,29 @@ def c09(sc, ctx, ex, ob, V, P):
             exp = fr[1] + DAY - timedelta(hours=24 * (ob.booked_before(fi) + fr[3]) / c)
             if not ctx.teq(o.start, exp):
                 V('start-encoding', '-', f'task {tid}: start {o.start}, expected {exp} (first work day {fr[1]:%Y-%m-%d}, capacity {c})')
-        # (e) end encoding
+        # (e) end encoding. "Booked before the task was placed" is read off the ledger per day only (rows of one day
+        # keep their reservation order; the order of rows across days is not promised by any property):
+        # if the task itself reserves on the day of its end, the rows of that day preceding its own row;
+        # otherwise the task was placed against a partially booked day it does not use, and the amount booked before
+        # it is the total of some of the other tasks' rows on that day (all of them unless a later, longer task
+        # filled the rest of the day afterwards).
         e = day(o.end - timedelta(microseconds=1))
         c = ob.cap(res, e)
-        first_row_index = min(i for i, _ in rows)
         if c > 0:
-            B = sum(x[3] for x in ob.rows[:first_row_index] if x[0] is res and x[1] == e)
-            exp = e + DAY - timedelta(hours=24 * B / c)
-            if not ctx.teq(o.end, exp):
-                V('end-encoding', '-', f'task {tid}: end {o.end}, expected {exp} (day {e:%Y-%m-%d}, booked before {B} of {c})')
-            if B > 0:
+            own = [i for i, r in rows if r[1] == e]
+            if own:
+                cands = [ob.booked_before(own[0])]
+            else:
+                others = {}
+                for x in ob.rows:
+                    if x[0] is res and x[1] == e:
+                        others[x[2]] = others.get(x[2], 0) + x[3]
+                vals = list(others.values())
+                cands = sorted({sum(v for k, v in enumerate(vals) if m >> k & 1) for m in range(1 << len(vals))}, reverse=True)
+            if not any(ctx.teq(o.end, e + DAY - timedelta(hours=24 * B / c)) for B in cands):
+                V('end-encoding', '-', f'task {tid}: end {o.end}, not midnight after {e:%Y-%m-%d} minus 24h x B/{c} for any admissible '
+                  f'amount booked before it (B in {cands})')
+            if cands[0] > 0:
                 P('end-on-partially-booked-day')
 
 
